@@ -4,9 +4,10 @@ import sys
 import json
 import hashlib
 
+import builtins
+_real_open = builtins.open
 emulate = os.environ.get('C17_EMULATE')
 if emulate:
-    import builtins
     import io
     _open = builtins.open
 
@@ -25,10 +26,10 @@ try:
     from musicxml.parser.parser import parse_musicxml
     s = X.XMLScorePartwise(version='4.0')
     w = s.add_child(X.XMLWork())
-    w.add_child(X.XMLWorkTitle('Bärenreiter ♭ \U0001d11e ö'))
+    w.add_child(X.XMLWorkTitle('Bärenreiter ♭ \U0001d11e ö '))   # trailing white space: kept by the parser
     pl = s.add_child(X.XMLPartList())
     sp = pl.add_child(X.XMLScorePart(id='P1'))
-    sp.add_child(X.XMLPartName('Flöte'))
+    sp.add_child(X.XMLPartName(' Flöte'))
     p = s.add_child(X.XMLPart(id='P1'))
     p.add_child(X.XMLMeasure(number='1'))
     path = os.environ['C17_OUT']
@@ -41,4 +42,8 @@ try:
     out['reparsed_equal'] = t.to_string() == s.to_string()
 except Exception as e:
     out['exception'] = type(e).__name__ + ': ' + str(e)[:150]
-sys.stdout.write(json.dumps(out) + '\n')
+out['_stdout_encoding'] = getattr(sys.stdout, 'encoding', None)
+# the result goes to a file, not to stdout: whatever the library itself writes to stdout / stderr is an observation
+with _real_open(os.environ['C17_RESULT'], 'wb') as fh:
+    fh.write(json.dumps(out).encode('utf-8'))
+
